@@ -80,6 +80,9 @@ spec fn ranges_within(r: Seq<Range<usize>>, b: int) -> bool {
         file_wf(*patched_file) ==> exists|origin: Seq<Orig>| db_post(*patched_file, r@, origin), // [Db.post.entries]
         // KF1: no carve-out (difflines.rs: `&& kf1_carve_out(*patched_file)`)
         file_wf(*patched_file) && kf1_carve_out(*patched_file) ==> strictly_sorted(r@), // [Db.post.strictly_sorted.carved]
+//@bind rule=E21 canon=prev_line find=<<let mut $v = None;>>
+//@bind rule=E21 canon=deleted_lines find=<<let mut $v: VecDeque<&Line> = VecDeque::new();>>
+//@bind rule=E21 canon=line_changes find=<<let mut $v = Vec::new();>>
 //@edit rule=E16 find=<<let mut prev_line = None;>>
 let mut prev_line: Option<&Line> = None;
 //@edit rule=ghost before=<<for hunk in patched_file.hunks()>>
